@@ -21,6 +21,13 @@ package roundrobin
 //@ type rbServer
 //@   immutable url meter
 //@   guarded_by Rebalancer.mtx: origWeight curWeight good
+//@   protects Rebalancer.mtx: meter
+
+// A server's meter has no locking of its own (the default one is a ratio of rolling counters): every Record / Rating /
+// IsReady goes through the rebalancer's mutex.
+//@ type Meter
+//@   extsync
+//@   mutators Record Rating IsReady
 
 // The wrapped balancer: assumed to behave like *RoundRobin (its own contracts are proved in verif_contracts.go)
 // and to keep its state in its own objects.
